@@ -210,7 +210,14 @@ def run(unit):
                 for pk_, detail in roundtrip('prop', obj, text, r):
                     r.violation(f'{pk_} [time bound]', {'kind': 'prop', 'text': text}, detail, size=len(num_text) + 1000)
         # an event that uses its own alias: as the whole message, in indices, ranges, nested accessors
-        for pred in ('roll(@M) > 0', 'yaw(@M) > @M.x', 'xs[@M.i] > @M.xs[0]', 'x in ![0 to @M.lim]', 'forall i in @M.xs: @i > @M.k', 'pitch(@M) < abs(@M.m.f) and not @M.p'):
+        own = ['roll(@M) > 0', 'yaw(@M) > @M.x', 'xs[@M.i] > @M.xs[0]', 'x in ![0 to @M.lim]', 'forall i in @M.xs: @i > @M.k', 'pitch(@M) < abs(@M.m.f) and not @M.p']
+        # the whole message as a value at every depth: below indices, field accesses after an index, range bounds,
+        # set members, function arguments, quantifier domains and bodies
+        contexts = ['%s > 0', 'xs[%s] > 0', 'xs[%s].y > 0', 'm.f[%s].g > 0', 'ms[%s].ys[%s] > 0', '@M.xs[%s].y > 0', 'ms[xs[%s]].y > 0', 'x in [0 to %s]', 'x in {%s, 1}', 'abs(%s) > x',
+                    'forall i in xs: @i > %s', 'forall i in [0 to %s]: @i > 0', 'forall i in ms[%s].ys: @i > 0', 'not (%s > 0)', 'ms[%s].y > 0 and @M.x > 0', 'ms[abs(%s)].y > ms[0].y', 'ms[%s + 1].y > 0']
+        for w in ('roll(@M)', 'yaw(@M)'):
+            own += [c.replace('%s', w) for c in contexts]
+        for pred in own:
             for tmpl in ('globally: no a as M { %s }', 'after a as M { %s }: some z', 'globally: (a as M { %s } or b) causes z'):
                 text = tmpl % pred
                 r.count('evaluations')
@@ -327,7 +334,7 @@ def replay(w):
 def describe(tier):
     b = bounds(tier)
     return {
-        'rule': f"parsed ASTs of: all Bool/Num/Str terms with <= {b['nodes']} nodes (fields, alias fields, nested fields, int/float/exponent literals, constants PI INF, strings, all 16 binary and both unary operators, sets, 4 range forms, indexing, inclusion, both quantifiers, abs/len/sum/max) as expression and predicate; all 27 built-in functions x 18 argument shapes x 4 contexts; every property skeleton (4 scopes x 5 patterns x widths 1..{b['max_width']} per position) x 6 decorations x 4 time bounds; all sequences of 1..3 from 6 properties as specifications; time bounds k*10^d for k in 1..{b['time_k']}, d in {b['time_exp']}, units s and ms. Each: str, re-parse with the same entry point, ==, hash, second str; plus a run-wide map printed text -> typed tree (injectivity).",
+        'rule': f"parsed ASTs of: all Bool/Num/Str terms with <= {b['nodes']} nodes (fields, alias fields, nested fields, int/float/exponent literals, constants PI INF, strings, all 16 binary and both unary operators, sets, 4 range forms, indexing, inclusion, both quantifiers, abs/len/sum/max) as expression and predicate; all 27 built-in functions x 18 argument shapes x 4 contexts; every property skeleton (4 scopes x 5 patterns x widths 1..{b['max_width']} per position) x 6 decorations x 4 time bounds; all sequences of 1..3 from 6 properties as specifications; time bounds k*10^d for k in 1..{b['time_k']}, d in {b['time_exp']}, units s and ms. Each: str, re-parse with the same entry point, ==, hash, second str; The whole message (roll / yaw of the own alias) is placed in 17 contexts (below indices, field accesses after an index, range bounds, set members, function arguments, quantifier domains and bodies) x 3 event positions; plus a run-wide map printed text -> typed tree (injectivity).",
         'bounds': b,
         'exhaustive': True,
         'assumptions': ['equality of typed lifted trees is the reference notion of "same AST"'],
